@@ -483,10 +483,10 @@ class ExclFamily(Family):
         rng = Rng(seed * 31337 + 3)
         lines = []
         for i in range(budget(tier, 30, 300, mult)):
-            kind = rng.pick(["regular", "regular", "dangling", "none"])
+            kind = rng.pick(["regular", "regular", "dangling", "none", "symlink", "symlink", "devnull", "fifo", "dir"])
             content = bytes(rng.below(256) for _ in range(rng.pick([0, 0, 1, 10, 600])))
-            stats.bump("excl_" + kind + ("_empty" if kind == "regular" and not content else ""))
-            lines.append("excl.probe kind=%s content=%s" % (kind, hx(content) if kind == "regular" else "-"))
+            stats.bump("excl_" + kind + ("_empty" if kind in ("regular", "symlink") and not content else ""))
+            lines.append("excl.probe kind=%s content=%s" % (kind, hx(content) if kind in ("regular", "symlink") else "-"))
         yield ("excl:%d" % seed, lines)
     def oracle(self, res):
         fails = []
@@ -499,6 +499,12 @@ class ExclFamily(Family):
             elif kv["kind"] == "regular":
                 if r["real"] != "null " + kv["content"]:
                     fails.append(("C08", "writer_init on an existing file: %s (file must be refused and left untouched)" % r["real"][:80], i))
+            elif kv["kind"] == "symlink":
+                if r["real"] != "null " + kv["content"]:
+                    fails.append(("C08", "writer_init on a symbolic link to an existing file: %s (path must be refused, link and target left untouched)" % r["real"][:80], i))
+            elif kv["kind"] in ("devnull", "fifo", "dir"):
+                if r["real"] != "null special":
+                    fails.append(("C08", "writer_init on an existing %s: %s (an existing path must be refused)" % (kv["kind"], r["real"][:80]), i))
             else:
                 if r["real"] != "null dangling":
                     fails.append(("C08", "writer_init on a dangling symlink: %s" % r["real"], i))
@@ -663,7 +669,7 @@ class WaFamily(Family):
         for c in self.corpus(pid):
             yield c
         rng = Rng(seed * 6000011 + 1)
-        for i in range(budget(tier, 40, 600, mult)):
+        for i in range(budget(tier, 40, 600, mult) if pid == "C20" else budget(tier, 12, 150, mult)):
             st = F.Stats()
             keys = F.gen_keys(rng, rng.pick([0, 1, 2, 4, 7]), st, long_ok=False)
             ents = " ".join("%s %s" % (hx(k), hx(F.gen_val(rng, st, 40)[:60])) for k in keys)
@@ -708,6 +714,17 @@ class WaFamily(Family):
                     fails.append(("C20", "a hard write error (script %s) was reported as success" % kvs["script"][:60], i))
                 if real.split(" ")[1] != want_file:
                     fails.append(("C20", "file differs from the all-full-writes file under script %s" % kvs["script"][:60], i))
+                    if not hard:
+                        # the same bytes judged as a file: frames walkable up to the index, trailer as the fault-free one
+                        try:
+                            fb = bytes.fromhex(real.split(" ")[1][5:]) if real.split(" ")[1][5:] != "-" else b""
+                            wb = bytes.fromhex(want_file[5:]) if want_file[5:] != "-" else b""
+                        except ValueError:
+                            fb = wb = b""
+                        if F.walk_layout(fb, 0) is None:
+                            fails.append(("C09", "file written under benign write(2) fragmentation (script %s) is not well-formed: frames do not tile the file up to the index / trailer" % kvs["script"][:60], i))
+                        if fb[-512:] != wb[-512:] or F.walk_layout(fb, 0) != F.walk_layout(wb, 0):
+                            fails.append(("C10", "trailer statistics written under benign write(2) fragmentation (script %s) differ from the truth (the all-full-writes trailer / actual layout)" % kvs["script"][:60], i))
             elif real.startswith("abort "):
                 if not hard:
                     fails.append(("C20", "the process stopped although every outcome in the script was benign (%s)" % kvs["script"][:60], i))
@@ -742,8 +759,8 @@ CODEC = "compression libraries: decompress(compress(x)) = x and compress does no
 reg("C01", ["table"], TABLE_RULE, [LEN32, CODEC, "restart interval >= 1", "pooled writer = sequential writer (C13)"], generated=["Constants"])
 reg("C02", ["table"], TABLE_RULE, [LEN32, CODEC])
 reg("C03", ["table"], TABLE_RULE, [LEN32, CODEC, "buffer lifetime (returned key/value stay intact until the next call on that iterator) is a run-time check under ASan, not a theorem"])
-reg("C09", ["table"], TABLE_RULE + "; every emitted file is byte-identical to the independent encoder's output on the canonical choices (W_refines_format) and re-validated structurally by python (frames contiguous to the index offset, prefix untouched)", [LEN32, CODEC], generated=["Constants"])
-reg("C10", ["table"], TABLE_RULE + "; the nine trailer fields from mtbl_metadata_* accessors recounted from the accepted entries and from the frame layout", [LEN32, "counters below 2^64"], generated=["Constants"])
+reg("C09", ["table", "wa"], TABLE_RULE + "; every emitted file is byte-identical to the independent encoder's output on the canonical choices (W_refines_format) and re-validated structurally by python (frames contiguous to the index offset, prefix untouched); the same for files written under scripted short writes / EINTR (family wa)", [LEN32, CODEC], generated=["Constants"])
+reg("C10", ["table", "wa"], TABLE_RULE + "; the nine trailer fields from mtbl_metadata_* accessors recounted from the accepted entries and from the frame layout; the trailer and layout of files written under scripted short writes / EINTR (family wa)", [LEN32, "counters below 2^64"], generated=["Constants"])
 reg("C11", ["enc"], "files produced by the Lean independent encoder from random LEGAL choices (v1 and v2, restart at every entry / one per block / random / writer-like, sharing anywhere in 0..lcp, separators anywhere in the legal interval, random block splits, foreign prefixes, all six codecs with payloads compressed by the real library, 32- and 64-bit restart arrays via a lowered threshold compiled into block.c/block_builder.c at run time) read by the real reader: iteration, lookups, seek histories; non-trivial = >= 2 data blocks",
     [LEN32, CODEC, "non-canonical varints are excluded (as in the property)", "the >4 GiB restart-array branch is exercised at a lowered threshold; the theorems are parametric in the threshold"])
 reg("C04", ["merger"], "0..6 sources (real tables with tiny blocks, empty tables, a user-defined source that poisons its previous buffers on every call), overlapping/disjoint/identical key sets incl. the empty key, merge = multiset union of unique 2-byte tokens (so 'each value exactly once' is checkable and fold order cannot differ), no merge function, dupsort, a merge callback failing on a chosen key; non-trivial = >= 2 non-empty sources",
@@ -1170,7 +1187,7 @@ reg("C13", ["tp", "pooled"], "mtbl/threadpool.c compiled unmodified into harness
     "pool sizes 1..6, 0..12 jobs, ordered and unordered delivery, random schedules with spurious wake-ups; after every turn the visible state (count, idle list, result queue, outstanding counter, finished flag, per-thread running/cb/res/rq, delivered results) and the sets of enabled and sleeping threads are compared with the machine; "
     "oracle on the real run: count <= max, no result twice, ordered results in order, all results at the end, no deadlock, no mutex misuse; plus writers and sorters with real pools (0..8 threads) under the OS scheduler against the sequential model (byte-identical files, same entries); non-trivial = the run reached the end (tp) / >= 2 blocks or spills (pooled)",
     ["pthread mutex/condition semantics incl. spurious wake-ups (the scheduler implements them); a critical section is one atomic step (rests on data-race freedom, C14)",
-     "liveness beyond deadlock freedom (every call returns under a fair scheduler with finitely many spurious wake-ups) is not mechanised (partial)",
+     "termination is proved through a progress measure for every schedule with finitely many spurious wake-ups (C13_progress, C13_steps_bounded, C13_no_hang, C13_can_finish); that the OS keeps scheduling some runnable thread is assumed",
      "thread creation does not fail"], variants=["sched", "A"], max_s={"quick": 100, "thorough": 1500})
 
 
@@ -1210,13 +1227,13 @@ class MtFamily(Family):
 
 FAMILIES["mt"] = MtFamily
 
-reg("C14", ["tp", "mt"], "static: the access sites of mtbl/threadpool.c (struct, field, read/write, mutexes held) are re-extracted from the source on every run and re-checked against the hand-declared site table and the access labels of the machine (theorems C14_sites_declared, C14_declared_in_model); "
+reg("C14", ["tp", "mt"], "static: the access sites of mtbl/threadpool.c (struct, field, read/write, mutexes held) are re-extracted from the source on every run and re-checked against the hand-declared site table and the access labels of the machine (theorems C14_sites_declared, C14_declared_in_model); the field accesses of writer.c / sorter.c per function with pool branch and join markers, and the assignments to the CRC function pointer, are re-extracted and re-checked against the role tables (C14_writer_*, C14_sorter_*, C14_crc_pointer); "
     "dynamic tie of the machine: the tp family of C13 (threadpool.c under the deterministic scheduler in lockstep with the machine); "
     "search for a concrete race: a ThreadSanitizer build of the library runs 1..4 caller threads, each with its own pooled writer and pooled sorter, sharing ONE pool of 1..16 threads, together with 0..8 threads iterating and querying one shared reader through their own iterators (1..10 rounds, tiny blocks and sorter chunks so that many jobs are in flight); non-trivial = a completed run with >= 2 callers or >= 2 reader threads",
     ["the C11 memory model, compiler transformations, the compression libraries and malloc are not modelled: the theorem is about the ownership/locking discipline of the machine and its agreement with the extracted access sites (partial)",
-     "the machine has one caller and one result handler; several callers sharing a pool, the writer/sorter field partition and reader immutability are covered at run time by ThreadSanitizer only (partial)",
+     "the machine has one caller and one result handler; several callers sharing a pool are covered at run time by ThreadSanitizer only (partial); the writer/sorter field partition between caller and result handler (C14_writer_partition, C14_writer_join_first, C14_sorter_partition, C14_sorter_join_first), reader immutability (C14_reader_immutable) and the single writer of the CRC function pointer (C14_crc_pointer) are table theorems over access tables re-extracted lexically from writer.c, sorter.c, reader.c, block.c, libmy/crc32c.c on every run",
      "a critical section is one atomic step of the machine"],
-    generated=["AccessSites"], variants=["sched", "tsan"], max_s={"quick": 100, "thorough": 1500})
+    generated=["AccessSites", "OwnerSites"], variants=["sched", "tsan"], max_s={"quick": 100, "thorough": 1500})
 
 
 # ------------------------------------------------------------------ resource ledger (C18)
